@@ -71,6 +71,9 @@ fn calc_fn(prog: &[u8], pc: usize, data: &mut dyn Any) -> u16 {
     if prog.len() == DUMMY_PROG.len() && prog == &DUMMY_PROG[..] {
         return 56;
     }
+    if prog.len() == REFUSED_PROG.len() && prog == &REFUSED_PROG[..] {
+        return 24;
+    }
     if let Ok(mut l) = CALC_LOG.lock() {
         if l.len() < 4096 {
             l.push(pc);
@@ -85,6 +88,11 @@ fn calc_fn(prog: &[u8], pc: usize, data: &mut dyn Any) -> u16 {
         Some(s) => s.frame(pc) as u16,
         None => panic!("harness: calculator data has an unexpected type"),
     }
+}
+
+/// a helper that always panics (the caller catches the unwind)
+pub fn panicking_helper(_a: u64, _b: u64, _c: u64, _d: u64, _e: u64) -> u64 {
+    panic!("harness: helper panics on purpose")
 }
 
 pub fn helper_for(j: usize, family: Family) -> crate::engines::Helper {
@@ -126,8 +134,20 @@ pub fn build_vm<'a>(c: &'a Case, family: Family) -> Result<Vm<'a>, String> {
     if path == 1 || path == 2 {
         vm.set_program(&c.prog, c.offs)?;
     }
+    if path >= 3 {
+        // "after something went wrong": a load the verifier refuses (a program with function
+        // entries of its own, for the fixed VM with smaller offsets) must leave the VM as it was -
+        // program, frame sizes, offsets and buffer
+        if vm.set_program(&REFUSED_PROG, if path == 3 { c.offs } else { (0, 8) }).is_ok() {
+            return Err("the refused placeholder program was accepted".into());
+        }
+    }
     Ok(vm)
 }
+
+/// `call +1; exit; mov r0, 0; ja +5` - two function entries (0 and 2) and a jump out of the
+/// program: refused by the verifier.
+pub static REFUSED_PROG: [u8; 32] = [0x85, 0x10, 0, 0, 1, 0, 0, 0, 0x95, 0, 0, 0, 0, 0, 0, 0, 0xb7, 0, 0, 0, 0, 0, 0, 0, 0x05, 0, 5, 0, 0, 0, 0, 0];
 
 pub enum Ran {
     Ok(u64),
@@ -201,6 +221,37 @@ pub fn run_interp(c: &Case, bufs: &Bufs, budget: u64, trace_cap: usize) -> Inter
             })();
             if let Err(e) = ok {
                 return Ran::Rejected(format!("re-registering helpers failed: {e}"));
+            }
+            bufs.reset(c);
+            hlp::log_reset();
+        }
+        // a compilation attempted (and, for programs with local calls, refused) on this VM before it
+        // is interpreted must not take anything away from it
+        #[cfg(feature = "std")]
+        if (c.prog.len() / 8) % 7 == 2 {
+            let _ = vm.cl_compile();
+        }
+        // "after something went wrong": a fifth of the cases are preceded, on the same VM, by an
+        // execution that fails - with no packet at all (out-of-bounds error for programs that read it)
+        // and, when the program calls helpers, with helpers that PANIC (the panic unwinds through the
+        // interpreter and is caught here, as a caller may do); then everything is put right again
+        if (c.prog.len() / 8) % 5 == 3 && c.kind != crate::engines::Kind::Fixed {
+            hooks::reset(budget, false);
+            let _ = vm.exec((std::ptr::null_mut(), 0), (std::ptr::null_mut(), 0));
+            if !c.helpers.is_empty() {
+                for (id, _) in &c.helpers {
+                    let _ = vm.register_helper(*id, panicking_helper);
+                }
+                hooks::reset(budget, false);
+                let caught = std::panic::catch_unwind(std::panic::AssertUnwindSafe(|| {
+                    let _ = vm.exec(bufs.pkt_raw(), bufs.mbuff_raw());
+                }));
+                let _ = caught;
+                for (id, j) in &c.helpers {
+                    if let Err(e) = vm.register_helper(*id, helper_for(*j, fam)) {
+                        return Ran::Rejected(format!("re-registering helpers failed: {e}"));
+                    }
+                }
             }
             bufs.reset(c);
             hlp::log_reset();
@@ -531,6 +582,54 @@ pub fn child_run_case(c: &Case, bufs: &Bufs, engine: Engine, family: Family, out
     // helpers (the function registered under each id shifted by one) and a decoy calculator, then
     // re-configured correctly and compiled again: the second compilation must describe the VM as it
     // is now (a compile that keeps earlier code makes the helper log / result disagree).
+    // the OTHER compiler is tried first on a seventh of the cases (Cranelift refuses local calls)
+    #[cfg(feature = "std")]
+    if engine != Engine::Interp && (c.prog.len() / 8) % 7 == 4 {
+        let _ = sys::catch(|| match engine {
+            Engine::Jit => vm.cl_compile(),
+            _ => vm.jit_compile(),
+        });
+    }
+    // Another sixth: the first compilation FAILS (a VM without the helpers the program calls), then
+    // the helpers are registered on that VM and it is compiled again.
+    if engine != Engine::Interp && (c.prog.len() / 8) % 6 == 5 && !c.helpers.is_empty() && c.kind != Kind::Fixed {
+        let fresh = sys::catch(|| -> Result<Vm, String> {
+            let mut v2 = Vm::new(c.kind, Some(&c.prog), c.offs)?;
+            #[cfg(not(any(feature = "std", feature = "stdlite")))]
+            if engine == Engine::Jit {
+                let need = (c.prog.len() / 8 * 64 + 8192 + 4095) & !4095;
+                let _ = v2.set_jit_exec_memory(exec_memory(need));
+            }
+            let first = match engine {
+                Engine::Jit => v2.jit_compile(),
+                #[cfg(feature = "std")]
+                Engine::Cranelift => v2.cl_compile(),
+                _ => Ok(()),
+            };
+            let _ = first; // Err when a called id is missing; Ok when the calls are unreachable... either way:
+            for (id, j) in &c.helpers {
+                v2.register_helper(*id, helper_for(*j, family))?;
+            }
+            if c.calc != CalcSpec::None {
+                v2.set_calc(calc_fn, Box::new(c.calc.clone()))?;
+            }
+            Ok(v2)
+        });
+        match fresh {
+            Ok(Ok(v2)) => vm = v2,
+            other => {
+                rec.status = 5;
+                rec.msg = format!("VM set-up after a failed compilation failed: {:?}", other.map(|r| r.map(|_| ())));
+                rec.encode(out);
+                return;
+            }
+        }
+        #[cfg(not(any(feature = "std", feature = "stdlite")))]
+        if engine == Engine::Jit {
+            let need = (c.prog.len() / 8 * 64 + 8192 + 4095) & !4095;
+            let _ = vm.set_jit_exec_memory(exec_memory(need));
+        }
+    }
     if engine != Engine::Interp && (c.prog.len() / 8) % 3 == 1 && (!c.helpers.is_empty() || c.calc != CalcSpec::None) {
         let _ = sys::catch(|| -> Result<(), String> {
             for (id, j) in &c.helpers {
